@@ -306,3 +306,77 @@ def convM2p (d : Dump) (x : Xlat) (addr : Nat) : Option (Except Err Nat) :=
   if x.xc then some (m2p d addr) else none
 
 end Kdf.Model.Xen
+
+/-! ## Re-open histories: one `kdump_ctx_t` is given one dump after the other
+
+`kdump_open_fd` / setting `file.fd` on a context that already has a dump open
+(`open_dump`, `open.c`): `close_format` frees the format's private data (both frame
+maps) and `clear_volatile_attrs` drops the "is set" flag of every attribute a dump
+defines — the stored value stays; `xen.xlat` is such an attribute and
+`get_xen_xlat` reads the stored number whether or not the flag is up.  The
+translation is flagged dirty, then `open_common` (`elfdump.c`) walks the section
+table of the new file: `.xen_p2m` stores `KDUMP_XEN_NONAUTO` and builds both maps,
+`.xen_pfn` stores `KDUMP_XEN_AUTO` and builds the guest-frame map only.
+`xc_get_page` and `xc_post_addrxlat` later read the stored mode. -/
+namespace Kdf.Model.Xen
+
+/-- what `open_common` finds in an xc_core file -/
+structure Spec where
+  /-- the page list section is `.xen_p2m` (else `.xen_pfn`) -/
+  p2m : Bool
+  be : Bool
+  shift : Nat
+  mapOff : Nat
+  pagesOff : Nat
+  tbl : List Entry
+  deriving Repr
+
+/-- the part of `kdump_ctx_t` the two views read -/
+structure Ctx where
+  /-- stored number of `xen.xlat` (`true` = `KDUMP_XEN_NONAUTO`; `KDUMP_XEN_AUTO` is 0) -/
+  xenXlat : Bool := false
+  /-- private data of the open dump; its `nonauto` field is the mode as read by `get_xen_xlat` -/
+  file : Option Dump := none
+  x : Xlat := {}
+  deriving Repr
+
+/-- `close_format` + `open_dump` up to the probe: maps freed, `xen.xlat` keeps its number,
+the translation is flagged dirty (the system object keeps its methods until the next set-up) -/
+def closeFormat (c : Ctx) : Ctx := { c with file := none, x := setOpt c.x }
+
+/-- `set_xen_xlat` -/
+def setXenXlat (c : Ctx) (v : Bool) : Ctx := { c with xenXlat := v }
+
+/-- `open_common` on the section table of `s` (allocation oracles as in `mkDump`);
+`none`: the open fails (`KDUMP_ERR_SYSTEM`) -/
+def openCommon (okP okM : Nat → Bool) (junkP junkM : Nat) (c : Ctx) (s : Spec) : Option Ctx :=
+  if s.p2m then
+    let c := setXenXlat c true
+    match build okP junkP (pfns s.be s.tbl) with
+    | none => none
+    | some pm =>
+      match build okM junkM (mfns s.be s.tbl) with
+      | none => none
+      | some mm => some { c with file := some ⟨c.xenXlat, s.be, s.shift, s.mapOff, s.pagesOff, s.tbl, pm, mm⟩ }
+  else
+    let c := setXenXlat c false
+    match build okP junkP (pfns s.be s.tbl) with
+    | none => none
+    | some pm => some { c with file := some ⟨c.xenXlat, s.be, s.shift, s.mapOff, s.pagesOff, s.tbl, pm, ⟨[], []⟩⟩ }
+
+/-- `kdump_open_fd` on a context in any state -/
+def openCtx (okP okM : Nat → Bool) (junkP junkM : Nat) (c : Ctx) (s : Spec) : Option Ctx :=
+  openCommon okP okM junkP junkM (closeFormat c) s
+
+/-- a history of opens on one context (every open succeeds, else `none`) -/
+def openAll (okP okM : Nat → Bool) (junkP junkM : Nat) (c : Ctx) : List Spec → Option Ctx
+  | [] => some c
+  | s :: ss => (openCtx okP okM junkP junkM c s).bind fun c' => openAll okP okM junkP junkM c' ss
+
+/-- the application asks for the translation after an open (`kdump_get_addrxlat`) -/
+def fetchXlat (o : OsInit) (c : Ctx) : Bool × Ctx :=
+  match c.file with
+  | none => (false, c)
+  | some d => let r := revalidate d o c.x; (r.1, { c with x := r.2 })
+
+end Kdf.Model.Xen
